@@ -177,14 +177,15 @@ def validate_traces(docs, module="Trace", jobs=14, per_batch=None, timeout=1500)
 
 
 def _pairs_batch(args):
-    docs, idx, wd, timeout = args
+    docs, idx, wd, timeout = args[:4]
+    module = args[4] if len(args) > 4 else "Equiv"
     f = os.path.join(wd, f"pairs_{idx}.json")
     with open(f, "w") as fh:
         json.dump(docs, fh)
     env = dict(os.environ)
     env["TRACE_FILE"] = f
     cmd = _java("4g") + ["-workers", "1", "-metadir", os.path.join(wd, f"pmeta_{idx}"), "-noGenerateSpecTE",
-                         "-config", "Equiv.cfg", "Equiv.tla"]
+                         "-config", module + ".cfg", module + ".tla"]
     try:
         p = subprocess.run(cmd, cwd=SPEC_DIR, capture_output=True, text=True, timeout=timeout, env=env)
         out = p.stdout + p.stderr
@@ -201,6 +202,37 @@ def _pairs_batch(args):
     os.remove(f)
     shutil.rmtree(os.path.join(wd, f"pmeta_{idx}"), ignore_errors=True)
     return idx, verdicts, states, out
+
+
+def validate_docs(docs, module, weight, jobs=14, timeout=1200):
+    """generic one-state-per-document judgement (Response.tla, ...)"""
+    if not docs:
+        return [], {"states": 0, "jvms": 0, "wall_s": 0.0}
+    wd = scratch("verif_dv_")
+    try:
+        n = len(docs)
+        nb = min(jobs, n)
+        batches = [[] for _ in range(nb)]
+        loads = [0] * nb
+        for i in sorted(range(n), key=lambda i: -weight(docs[i])):
+            b = loads.index(min(loads))
+            batches[b].append(i)
+            loads[b] += weight(docs[i]) + 10
+        t0 = time.time()
+        res = [None] * n
+        states = 0
+        with ThreadPoolExecutor(max_workers=jobs) as ex:
+            futs = [ex.submit(_pairs_batch, ([docs[i] for i in b], k, wd, timeout, module)) for k, b in enumerate(batches)]
+            for fu in futs:
+                idx, verdicts, st, out = fu.result()
+                states += st
+                for pos, i in enumerate(batches[idx]):
+                    if pos + 1 not in verdicts:
+                        raise TLCError(f"TLC produced no verdict for document {i} ({module}):\n" + out[-4000:])
+                    res[i] = verdicts[pos + 1]
+        return res, {"states": states, "jvms": nb, "wall_s": round(time.time() - t0, 2)}
+    finally:
+        shutil.rmtree(wd, ignore_errors=True)
 
 
 def validate_pairs(pairs, jobs=14, timeout=1200):
